@@ -406,6 +406,11 @@ def _main(pid, tier, seed, args, t0):
             try:
                 rr = native.replay(r["name"], o["label"], o["model"] or {}, o["note"])
                 if rr is not None:
+                    fl = rr.get("failure")
+                    if rr.get("reproduced") and isinstance(fl, dict) and match_native_finding(kf["finding"], fl) is not None:
+                        # the replayer's search ran into a LISTED known finding: that input does not witness this
+                        # obligation, so it must not be reported as its reproduction
+                        rr = dict(rr, reproduced=False, note_replay="the only failing input found is a listed known finding (" + str(fl.get("what")) + "), not a witness of this obligation")
                     rp.update(rr)
                     reproduced = rr.get("reproduced")
             except Exception:
